@@ -9,8 +9,16 @@ import common
 from props import hmc_common as H
 
 ID = "C14"
-LEAN_MODULES = ["QProps.C14"]
+LEAN_MODULES = ["QProps.C14", "QProps.C14g"]
 THEOREMS = [
+    "Verlet.verlet1_energy_local",
+    "Verlet.verlet_energy_error_quadratic",
+    "Verlet.verlet_energy_error_quadratic_contDiff",
+    "Verlet.verlet_energy_error_quadratic_general",
+    "Verlet.verlet_energy_error_quadratic_general_contDiff",
+    "Verlet.verlet_cos_energy_error_quadratic",
+    "Verlet.verlet_quartic_energy_error_quadratic",
+    "Verlet.verlet_phi_coordinate",
     "Verlet.verlet_reversible",
     "Verlet.verlet_shadow_harmonic",
     "Verlet.energy_error_quadratic_partial",
